@@ -2,6 +2,24 @@ import OdakProofs.Lemmas.GenKernels
 import OdakProofs.Lemmas.NumpyPipelines
 import OdakModel.PipelineTie
 
+/-! # Tie theorems: the propagation PIPELINES regenerated from the Python source are the hand-written model
+
+  `OdakModel/Generated/Pipelines.lean` is rewritten on every run by `harness/translate/pipelines.py` from the current
+  `odak/learn/wave/classical.py`, `odak/wave/classical.py`, `odak/learn/tools/matrix.py`, `odak/learn/wave/propagators.py`:
+  which FFT, which shift, which product, pad / crop, in which order, statement by statement.  Every theorem below says that a
+  regenerated definition EQUALS the hand-written definition of `OdakModel/Propagate.lean` / `OdakModel/PropagateBeam.lean` that
+  the property theorems (C01, C02, C03, C04, C06) are about.  A changed shift function, an exchanged order of operations, a
+  factor applied twice, a different kernel handed to `custom`, a different padding sequence in the source changes the generated
+  text and one of these equalities stops compiling.
+
+  * `gen_customT_eq`, `gen_customPadT_eq`, `gen_customStackT_eq` hold for EVERY scalar instantiation (in particular at `Float`,
+    the model the correspondence executes); the stack theorem is new: `fftshift` / `ifftshift` are called without `dim`, so a
+    stack `[k × n × m]` has its batch axis rolled before the products and rolled back after them, and the pipeline is the 2-D
+    pipeline applied to every field, for every `k` (odd `k` too);
+  * the method / dispatch theorems are at `α = ℝ` because the kernels are equal at `ℝ` (`GenKernels.lean`);
+  * the propagator step is in `GenPropagator.lean`.
+  Proofs unfold with `simp only` rather than `rfl` where a FAILED equality would otherwise make the elaborator normalise DFT sums. -/
+
 set_option linter.unreachableTactic false
 set_option linter.unusedTactic false
 
@@ -11,8 +29,10 @@ open Gen CGrid
 section generic
 variable {α : Type} [Num α] {n m k : Nat}
 
-theorem gen_customT_eq (u H A : CGrid α n m) : customT u H A = custom u H A := rfl
-theorem gen_customPadT_eq (u H A : CGrid α n m) : customPadT u H A = customPad u H A := rfl
+theorem gen_customT_eq (u H A : CGrid α n m) : customT u H A = custom u H A := by
+  simp only [customT, custom]
+theorem gen_customPadT_eq (u H A : CGrid α n m) : customPadT u H A = customPad u H A := by
+  simp only [customPadT, customPad]
 
 theorem fftshiftIdx_ifftshiftIdx (b : Fin k) : fftshiftIdx (ifftshiftIdx b) = b :=
   (fsE k).symm_apply_apply b
@@ -27,9 +47,6 @@ theorem gen_customStackT_eq (us : CStack α k n m) (H A : CGrid α n m) :
   have h := congrArg Fin.val (fftshiftIdx_ifftshiftIdx (⟨b, hb⟩ : Fin k))
   simp only at h
   simp only [h]
-
-theorem gen_reconstructCallsT_eq {β : Type} (frames depths channels : Nat) (field : Nat → Nat → β) :
-    reconstructCallsT frames depths channels field = reconstructOps frames depths channels field := rfl
 
 end generic
 
@@ -126,10 +143,10 @@ theorem gen_fraunhoferT_eq (u : CGrid ℝ n m) (dx lam k z : ℝ) :
 
 theorem gen_angularSpectrumN_eq (u : CGrid ℝ n m) (dx lam k z : ℝ) :
     angularSpectrumN u dx lam k z = npAS u dx lam k z := by
-  simp only [angularSpectrumN, gen_asKernelN_eq]; rfl
+  simp only [angularSpectrumN, gen_asKernelN_eq, npAS, customNoAp]
 theorem gen_bandLimitedAngularSpectrumN_eq (u : CGrid ℝ n m) (dx lam k z : ℝ) :
     bandLimitedAngularSpectrumN u dx lam k z = npBL u dx lam k z := by
-  simp only [bandLimitedAngularSpectrumN, gen_blKernelN_eq]; rfl
+  simp only [bandLimitedAngularSpectrumN, gen_blKernelN_eq, npBL, customNoAp]
 theorem gen_transferFunctionFresnelN_eq (u : CGrid ℝ n m) (dx lam k z : ℝ) :
     transferFunctionFresnelN u dx lam k z = npTF u dx lam k z := by
   simp only [transferFunctionFresnelN, gen_tfKernelN_eq, npTF, CGrid.scaleR, CGrid.divR, num_ofNat, Nat.cast_one]
@@ -175,9 +192,9 @@ theorem gen_propagateBeamT_noFourierPad (ptype : String) (u : CGrid ℝ n m) (v 
     propagateBeamT_TFT ptype u A' Kc' dx lam k z s0 s1 s2 s3
       = (torchBeamCore ptype (padGrid u) A' Kc' dx lam k z s0 s1 s2 s3).map cropGrid := by
   refine ⟨gen_beamCore_eq .., ?_, ?_, ?_⟩
-  · rw [← gen_beamCore_eq]; rfl
-  · rw [← gen_beamCore_eq]; rfl
-  · rw [← gen_beamCore_eq]; rfl
+  · rw [← gen_beamCore_eq]; simp only [propagateBeamT_FFT, propagateBeamT_FFF]
+  · rw [← gen_beamCore_eq]; simp only [propagateBeamT_TFF, propagateBeamT_FFF]
+  · rw [← gen_beamCore_eq]; simp only [propagateBeamT_TFT, propagateBeamT_FFF]
 
 /-- `zero_padding = [p0, True, p2]`: the same with the Fourier-domain padding of `custom` -/
 theorem gen_propagateBeamT_fourierPad (ptype : String) (u A Kc : CGrid ℝ n m) (A' Kc' : CGrid ℝ (2 * n) (2 * m))
@@ -189,9 +206,9 @@ theorem gen_propagateBeamT_fourierPad (ptype : String) (u A Kc : CGrid ℝ n m) 
     propagateBeamT_TTT ptype u A' Kc' dx lam k z s0 s1 s2 s3
       = (torchBeamCorePad ptype (padGrid u) A' Kc' dx lam z s0 s1 s2 s3).map cropGrid := by
   refine ⟨gen_beamCorePad_eq .., ?_, ?_, ?_⟩
-  · rw [← gen_beamCorePad_eq (k := k)]; rfl
-  · rw [← gen_beamCorePad_eq (k := k)]; rfl
-  · rw [← gen_beamCorePad_eq (k := k)]; rfl
+  · rw [← gen_beamCorePad_eq (k := k)]; simp only [propagateBeamT_FTT, propagateBeamT_FTF]
+  · rw [← gen_beamCorePad_eq (k := k)]; simp only [propagateBeamT_TTF, propagateBeamT_FTF]
+  · rw [← gen_beamCorePad_eq (k := k)]; simp only [propagateBeamT_TTT, propagateBeamT_FTF]
 
 /-- the default call `propagate_beam(u, …, 'Angular Spectrum' | 'Bandlimited Angular Spectrum' | 'Transfer Function Fresnel',
     zero_padding = [True, False, True])` without aperture is pad -> the hand model's method at the doubled size -> crop
@@ -205,25 +222,5 @@ theorem gen_propagateBeamT_default (u : CGrid ℝ n m) (Kc : CGrid ℝ (2 * n) (
   simp only [(gen_propagateBeamT_noFourierPad _ u (padGrid u) (const 1) Kc (const 1) u dx lam k z s0 s1 s2 s3).2.2.2,
     torchBeamCore, torchKernel, custom_const_one]
   exact ⟨rfl, rfl, rfl⟩
-
-/-! ### `propagator.__call__` -/
-
-theorem gen_propagationKernelT_method (meth : PMethod) (n m : ℕ) (dx lam z : ℝ) (s0 s1 s2 s3 : ℕ) :
-    propagationKernelT meth.name n m dx lam z s0 s1 s2 s3 = some (methodKernel n m meth dx lam z) := by
-  rw [gen_propagationKernelT_eq]
-  cases meth <;> simp [torchKernel, PMethod.name, methodKernel]
-
-/-- the regenerated step function is the hand model's `callStep` between `zero_pad` and `crop_center`, with the kernel
-    `kernelFor` builds for (depth, channel): same cache key, the kernel WITHOUT the aperture is stored, forward / back-and-forth
-    kernels as in the hand model -/
-theorem gen_propagatorCallT_eq {h w : ℕ} (cfg : PropCfg ℝ) (A : CGrid ℝ (2 * h) (2 * w)) (s0 s1 s2 s3 : ℕ)
-    (s : PState ℝ (2 * h) (2 * w)) (d c : ℕ) (u : CGrid ℝ h w) :
-    propagatorCallT (cfg.toSelf A s0 s1 s2 s3) s u c d = some (callStepPC (kernelFor (2 * h) (2 * w) cfg) A s d c u) := by
-  simp only [propagatorCallT, PropCfg.toSelf, gen_propagationKernelT_method, callStepPC, callStep, kernelFor, propagatorTypeName,
-    gen_customT_eq]
-  cases hl : s.cache.lookup (d, c) with
-  | some H => simp
-  | none =>
-    cases hb : cfg.backAndForth <;> simp
 
 end Odak
